@@ -97,7 +97,18 @@ func (x *Exec) evalLets(ce *CEnv, fc *FuncContract) {
 					panic(r)
 				}
 			}()
-			ce.lets[l.Label] = x.eval(ce, l.E)
+			v := x.eval(ce, l.E)
+			if l.Kind == "olet" && v.T != nil && (v.T.Sort == "Int" || v.T.Sort == "Real") && len(v.T.Args) > 0 {
+				c := x.b.Fresh("olet_"+l.Label, v.T.Sort)
+				eq := x.b.Eq(c, v.T)
+				x.axiom(eq)
+				if x.keepHyp == nil {
+					x.keepHyp = map[int]bool{}
+				}
+				x.keepHyp[eq.ID] = true
+				v = &Val{Typ: v.Typ, T: c}
+			}
+			ce.lets[l.Label] = v
 		}()
 	}
 }
@@ -246,6 +257,20 @@ func (x *Exec) evalIdent(ce *CEnv, name string) *Val {
 	}
 	if strings.HasPrefix(name, "$") {
 		return x.loopVar(ce, name[1:])
+	}
+	// captured variable of a closure under contract: its value in the state the
+	// expression is evaluated in (so that loop invariants see the current value)
+	if ce.fr != nil && ce.fr.fn != nil && ce.env != nil {
+		for _, fv := range ce.fr.fn.FreeVars {
+			if fv.Name() == name {
+				if pv := ce.env.lookup(fv); pv != nil {
+					if pt, ok := fv.Type().(*types.Pointer); ok {
+						loc := x.derefLoc(nil, nil, pv)
+						return &Val{Typ: pt.Elem(), T: x.loadLoc(ce.st, loc)}
+					}
+				}
+			}
+		}
 	}
 	if v, ok := ce.vars[name]; ok {
 		return v
